@@ -117,7 +117,8 @@ def run_task(task):
     import os
     # also when an obligation failed: the enumeration may supply the concrete failing input
     undec = status != "ok" or any(o.status in ("undecided", "failed") for o in ex.obligations.values())
-    if task.enumerate is not None and (undec or task.fn is None or os.environ.get("VERIF_TIER") == "thorough"):
+    # (the enumerations are cheap and are run in both tiers, so that listed known findings they exercise are reported every run)
+    if task.enumerate is not None:
         try:
             en = task.enumerate(int(os.environ.get("VERIF_SEED", "0") or 0))
             res["enumeration"] = en
